@@ -126,6 +126,7 @@ func runC03(ctx *Ctx, c *c03Case) {
 			case res = <-done:
 			case <-time.After(60 * time.Second):
 				ctx.Inconclusive("controller.Run did not return after cancel for " + jsonStr(c))
+				ctx.Abort = true
 				return
 			}
 		}
@@ -140,6 +141,7 @@ func runC03(ctx *Ctx, c *c03Case) {
 				ctx.Count("stop_point_not_reached", 1)
 			case <-time.After(60 * time.Second):
 				ctx.Inconclusive("controller.Run did not return within the watchdog for " + jsonStr(c))
+				ctx.Abort = true
 				return
 			}
 		}
@@ -205,7 +207,7 @@ func genC03(r *rand.Rand) *c03Case {
 func init() {
 	register("C03", func(ctx *Ctx) {
 		n := ctx.N(480, 20000)
-		for i := 0; i < n; i++ {
+		for i := 0; i < n && !ctx.Abort; i++ {
 			c := genC03(ctx.Rng)
 			ctx.SampleKind(fmt.Sprintf("%v/%v", c.Stall, c.AtEvent > 0), map[string]interface{}{"kind": fmt.Sprintf("in-process stall=%v event-based=%v", c.Stall, c.AtEvent > 0), "case": c})
 			runC03(ctx, c)
